@@ -140,6 +140,14 @@ type Param struct {
 	Wire     string `json:"wire,omitempty"`
 	Validate string `json:"validate,omitempty"`
 	Descr    string `json:"descr,omitempty"`
+	AnnName  string `json:"ann_name,omitempty"` // value written in the annotation when it differs from GoName (perturbations)
+}
+
+func (p Param) AnnValue() string {
+	if p.AnnName != "" {
+		return p.AnnName
+	}
+	return p.GoName
 }
 
 func (p Param) WireName() string {
